@@ -39,6 +39,11 @@ def plan(rng, thorough):
                 add("verify", n=(2 if keyform == "vk" else 1) * k, cls=cls, keyform=keyform, dsse=dsse,
                     linkdir=rng.random() < 0.7, timeout=rng.choice([None, None, 5]))
     for dsse in (False, True):
+        add("verify", n=1, cls="expired_recently", keyform="vk", dsse=dsse, tz="XXX10")
+        add("verify", n=1, cls="valid_an_hour", keyform="vk", dsse=dsse, tz="XXX-10")
+        add("verify", n=1, cls="expired_recently", keyform="lk", dsse=dsse, tz="XXX-10")
+        add("verify", n=k, cls="garbage_extra_link", keyform="vk", dsse=dsse)
+    for dsse in (False, True):
         add("verify", n=k, cls="sub_insp_slow", keyform="vk", dsse=dsse, timeout=5, scripted_seconds=7.0)
     for sub in ("unsigned", "edited", "sig_nibble", "wrong_signer", "one_missing"):
         for keyform in ("vk", "lk", "vk+lk"):
